@@ -71,6 +71,16 @@ pub fn gen_c18(rng: &mut Rng, thorough: bool, release: bool) -> Vec<Tagged> {
             }
         }
     }
+    // the largest state m-1 (and its neighbours) reached at the first, second and third draw of a shuffle
+    for top in 0..3u64 {
+        for steps in 1..=3u32 {
+            let seed = seed_reaching(LCG_M - 1 - top, steps);
+            for n in [1usize, 2, 5, 17] {
+                out.push(("shuffle-largest-states".into(), Case::Shuffle { wrap, seed, n }));
+            }
+            out.push(("gen-largest-states".into(), Case::RandGen { wrap, seed, n: 4, lo: 0.0, hi: 7.0 }));
+        }
+    }
     // seeds far above the modulus: the first multiplication overflows u64
     for k in 0..(if thorough { 40 } else { 8 }) {
         let seed = match k % 4 {
